@@ -1,10 +1,78 @@
 import StepupModel.Proto
-/-! Driver requests of C03 (`c03 <op> ...`). -/
+import StepupModel.B.Windows
+import StepupModel.B.Exec
+/-! Driver requests of C03 (`c03 <op> ...`).
+
+* `c03 win <events>`: events `s:<id>:<t>` (record_run_started), `e:<id>:<ok>:<t>` (record_run_stopped),
+  `x` (end of phase), comma separated; `<n>` = number of step ids.  Answer: for every event, after
+  it, `starts|stops|matrix` with the two tables sorted by id (`id=t` joined by `+`) and the matrix of
+  `ran_concurrently(p, c)` for p, c in 1..n as a 0/1 string; events joined by `;`.
+* `c03 exec ...`: one scenario of `Executor.execute_job`; answer: the fields of the completion.
+* `c03 carry <unavailable> <unfresh> <checked>`: the amend handler's decision.
+-/
 open StepupModel StepupModel.Proto
 
 namespace StepupModel.Drv.C03
+open StepupModel.B
+
+def parseEv (tok : String) : Option Windows.Ev :=
+  match tok.splitOn ":" with
+  | ["s", i, t] => do pure (.start (← i.toNat?) (← t.toNat?))
+  | ["e", i, ok, t] => do pure (.stop (← i.toNat?) (ok = "1") (← t.toNat?))
+  | ["x"] => some .phaseEnd
+  | _ => none
+
+def insertSorted (e : Nat × Nat) : List (Nat × Nat) → List (Nat × Nat)
+  | [] => [e]
+  | a :: as => if e.1 ≤ a.1 then e :: a :: as else a :: insertSorted e as
+
+def tableStr (t : Windows.Table) : String :=
+  let sorted := t.foldl (fun acc e => insertSorted e acc) []
+  if sorted.isEmpty then "." else "+".intercalate (sorted.map fun e => s!"{e.1}={e.2}")
+
+def matrixStr (s : Windows.Sched) (n : Nat) : String :=
+  String.ofList ((List.range n).flatMap fun p => (List.range n).map fun c =>
+    if Windows.ranConcurrently s (p + 1) (c + 1) then '1' else '0')
+
+def parseHashes (tok : String) : Option (List (String × Nat)) :=
+  if tok = "." then some [] else (tok.splitOn ",").mapM fun e =>
+    match e.splitOn "=" with
+    | [p, h] => do pure (← unhex p, ← h.toNat?)
+    | _ => none
+
+def optStr : Option Nat → String
+  | some h => toString h
+  | none => "~"
+
+def parseChecked (tok : String) : Option (List (String × Exec.CheckedState)) :=
+  if tok = "." then some [] else (tok.splitOn ",").mapM fun e =>
+    match e.splitOn "=" with
+    | [p, "c"] => do pure (← unhex p, .confirmed)
+    | [p, "b"] => do pure (← unhex p, .built)
+    | [p, "o"] => do pure (← unhex p, .other)
+    | _ => none
 
 def handle : List String → Option String
+  | ["win", n, evs] => do
+    let n ← n.toNat?
+    let evs ← if evs = "." then some [] else (evs.splitOn ",").mapM parseEv
+    let (_, outs) := evs.foldl (fun (acc : Windows.Sched × List String) e =>
+      let s := Windows.step acc.1 e
+      (s, acc.2 ++ [s!"{tableStr s.starts}|{tableStr s.stops}|{matrixStr s n}"])) ({}, [])
+    pure (if outs.isEmpty then "." else ";".intercalate outs)
+  | ["exec", dispatch, diskPre, cancelPre, rc, deferred, unav, unfresh, completion, outputs, diskPost, cancelPost, hash,
+      interrupted, keepGoing] => do
+    let sc : Exec.Scenario :=
+      { dispatchInputs := ← parseHashes dispatch, diskPre := ← parseHashes diskPre, cancelledPre := cancelPre = "1",
+        rc := ← rc.toNat?, deferCalled := deferred = "1", amendUnavailable := ← unhexList unav, amendUnfresh := ← unhexList unfresh,
+        completionInputs := ← parseHashes completion, outputs := ← unhexList outputs,
+        diskPost := ← parseHashes diskPost, cancelledPost := cancelPost = "1", stepHash := ← hash.toNat? }
+    let c := Exec.executeJob sc
+    let oc := match c.outCause with | some true => "S" | some false => "F" | none => "-"
+    pure s!"{boolStr c.ranCommand} {optStr c.hash} {boolStr c.wantsDefer} {hexList c.failedInputs} {oc} {boolStr c.drainUnexpected} {Exec.tag c (interrupted = "1")} {boolStr (Exec.drains c (interrupted = "1") (keepGoing = "1"))}"
+  | ["carry", unav, unfresh, checked] => do
+    let (ok, u, f) := Exec.amendCarryOn (← unhexList unav) (← unhexList unfresh) (← parseChecked checked)
+    pure s!"{boolStr ok} {hexList u} {hexList f}"
   | _ => none
 
 end StepupModel.Drv.C03
